@@ -117,6 +117,23 @@ Theorem status500_never_ordinary : forall (c : content) d f r,
 Proof. exact status500_never_ordinary_l. Qed.
 Print Assumptions status500_never_ordinary.
 
+(* The delivery paths coincide on arbitrary content as well ... *)
+Theorem paths_coincide_any_content : forall (c : content) st n f r,
+  via_inject c st (Some n) f r = via_context c st (Some n) f r /\
+  via_error (Some c) st n f r = via_context c st (Some n) f r /\
+  via_error None st n f r = via_context CEmpty st (Some n) f r /\
+  forall code, via_reply c code f r = via_context c None None f r.
+Proof. exact paths_coincide_any_content_l. Qed.
+Print Assumptions paths_coincide_any_content.
+
+(* ... so on every path that carries a status, one outside {200,202,204,500}
+   ends as (status, description) whatever was delivered. *)
+Theorem other_status_any_path : forall p (c : content) s desc f r,
+  p <> PthReply -> s <> 200 -> s <> 202 -> s <> 204 -> s <> 500 ->
+  exists d, run_via p c (Some s) desc f r = if f then RaiseStatus s d else RetPair s d.
+Proof. exact other_status_any_path_l. Qed.
+Print Assumptions other_status_any_path.
+
 (* non-vacuity of the three: a Fault document under 204, 404 and 500 *)
 Example any_content_nonvacuous :
   let c := shape_of (BFault Env11 true true 1 7 8 9) in
